@@ -19,6 +19,8 @@ func c16(c *Ctx) {
 		}
 		c.Emit(ec.sx, L(B(out)), ec.meta)
 	}
+	// the same cases' lines must not depend on what else is being encoded at the same time (c16_conc.go)
+	c16Concurrent(c)
 	reportFloatMonitor(c)
 }
 
